@@ -151,3 +151,103 @@ func TestC09Durability(t *testing.T) {
 		vlib.Sample(map[string]any{"ops": c.Ops, "images": images})
 	})
 }
+
+// TestC09FsyncFailure: an operation during which an fsync fails must not report success unless every post-crash image still
+// shows its effect: a failed fsync makes nothing durable (fault_sequences part of the quantifier).
+func TestC09FsyncFailure(t *testing.T) {
+	rapid.Check(t, func(t *rapid.T) {
+		cfg := smallConfig()
+		cfg.Default = uint(rapid.IntRange(1, 2).Draw(t, "default"))
+		aux, _ := genAuxFor(t, "aux")
+		pre := []preUser{{Name: "root", PW: "rootpw", Admin: true, PID: 1}, {Name: "alice", PW: "alicepw", Admin: rapid.Bool().Draw(t, "aadm"), PID: 1, Aux: aux}}
+		kinds := []string{"add", "update", "setadmin", "remove", "init"}
+		kind := kinds[vlib.Shard()%len(kinds)]
+		op := Op{Kind: kind, User: "alice", PW: "new-password", Admin: !pre[1].Admin}
+		switch kind {
+		case "add":
+			op.User = "bob"
+		case "init":
+			pre, op.User, op.Admin = nil, "root", true
+		}
+		mk := func() *sandbox {
+			s, err := newSandbox(cfg, pre, true)
+			if err != nil {
+				t.Fatalf("VERIF-INFRA %v", err)
+			}
+			return s
+		}
+		s0 := mk()
+		base, out0, err := s0.trace([]Op{op}, nil, false)
+		s0.cleanup()
+		if err != nil || len(base.Ops) != 1 || !out0[0].OK {
+			t.Fatalf("VERIF-INFRA baseline: %v %+v", err, out0)
+		}
+		for _, ev := range base.Ops[0].Events {
+			if ev.Kind != "sync" {
+				continue
+			}
+			for _, en := range []int{5 /*EIO*/, 28 /*ENOSPC*/} {
+				s := mk()
+				res, out, err := s.trace([]Op{op}, &Injection{Op: 0, Event: ev.Seq, Errno: en, Name: ev.Name}, false)
+				if err != nil || len(res.Ops) != 1 || len(out) != 1 {
+					s.cleanup()
+					t.Fatalf("VERIF-INFRA injected run: %v", err)
+				}
+				o := res.Ops[0]
+				if !res.InjectHit || ev.Seq >= len(o.Events) || o.Events[ev.Seq].Injected == "" || o.Events[ev.Seq].Injected == "MISMATCH" {
+					s.cleanup()
+					vlib.Class("injection-did-not-hit(discarded)")
+					continue
+				}
+				vlib.Eval()
+				target := "file"
+				if ev.IsDir {
+					target = "directory"
+				}
+				if o.Outcome == "ok" {
+					m := newPModel(o.Pre)
+					for _, e2 := range o.Events {
+						if e2.Before == nil {
+							continue
+						}
+						m.observe(e2.Before)
+						if e2.Kind == "sync" && e2.Ret == 0 {
+							if e2.IsDir {
+								rel, _ := filepath.Rel(s.base, e2.Path)
+								m.fsyncDir(rel)
+							} else {
+								m.fsyncFile(e2.Ino)
+							}
+						}
+					}
+					m.observe(o.Post)
+					want := snapFiles(o.Post)
+					for _, img := range m.images(4000) {
+						got := userFiles(img.Files)
+						same := len(got) == len(want)
+						for k, v := range want {
+							if g, ok := got[k]; !ok || !bytes.Equal(g, v) {
+								same = false
+							}
+						}
+						if !same && op.Kind == "remove" && ev.IsDir && vlib.Known("C09-remove-cannot-report-fsync-failure") {
+							vlib.Excluded("known finding C09-remove-cannot-report-fsync-failure")
+							break
+						}
+						if !same {
+							s.cleanup()
+							t.Fatalf("VIOLATION C09: %s(%s) reported success although its fsync of the %s (syscall #%d) failed with errno %d; after a power loss a reachable state does not show the acknowledged change [%s]:\n  acknowledged: %s\n  post-crash:   %s",
+								op.Kind, op.User, target, ev.Seq, en, img.Desc, describeFiles(want), describeFiles(got))
+						}
+					}
+					vlib.Class("op-acknowledged-despite-failed-fsync(still durable in every image)")
+				} else {
+					vlib.Class("failed-fsync-reported-as-failure")
+				}
+				vlib.NT("c09f", op.Kind, target, ev.Seq, en)
+				s.cleanup()
+			}
+		}
+		vlib.Class("fsync-failure:" + op.Kind)
+	})
+}
